@@ -561,6 +561,6 @@ fn c13_mutex_panicking_holder_drop_vs_contender() {
         }
         assert!(!PC_GOT_OK, "C13: try_lock returned Ok although the holder panicked inside the guard (poison flag set too late)");
         assert!(m.is_poisoned());
-        kani::cover!(inside && PC_GOT_ANY, "contender got in while the panicking holder's drop was still running");
+        kani::cover!(inside, "the contender's try_lock ran inside the panicking holder's guard drop");
     }
 }
